@@ -362,6 +362,34 @@ package virtual
 //@   ensures a-granted-link-adds-one: r0 == StatusOK ==> delta(&l.linkCount) == old(delta(&l.linkCount)) + 1
 //@   ensures stale-or-ok: r0 == StatusOK || r0 == StatusErrStale
 
+// NFSv4 handle allocator: identical immutable (CAS backed) files share one leaf
+// per inode number. Every directory entry that is handed the shared leaf is
+// counted, the redundant underlying leaf is given back, and the shared leaf is
+// dropped from the pool (and its underlying leaf unlinked) exactly when the
+// last holder unlinks it (C17: one removed copy does not take the other copies
+// of an input file away; C16: link counting).
+//@ func (*nfsStatelessHandleAllocation).AsLinkableLeaf
+//@   props C17 C16
+//@   assume hn.currentInodeNumber in hn.pool.statelessLeaves ==> hn.pool.statelessLeaves[hn.currentInodeNumber].linkCount < MaxUint32 -- a file does not have 2^32 hard links
+//@   ensures an-existing-shared-leaf-counts-the-new-holder:
+//@             old(hn.currentInodeNumber in hn.pool.statelessLeaves) ==>
+//@             r0 == old(hn.pool.statelessLeaves[hn.currentInodeNumber]) &&
+//@             as(r0, *nfsStatelessLinkableLeaf).linkCount == old(hn.pool.statelessLeaves[hn.currentInodeNumber].linkCount) + 1 &&
+//@             leaflinks(underlyingLeaf) == -1
+//@   ensures a-new-shared-leaf-starts-with-one-holder:
+//@             !old(hn.currentInodeNumber in hn.pool.statelessLeaves) ==>
+//@             as(r0, *nfsStatelessLinkableLeaf).linkCount == 1 && as(r0, *nfsStatelessLinkableLeaf).LinkableLeaf == underlyingLeaf &&
+//@             old(hn.pool).statelessLeaves[old(hn.currentInodeNumber)] == r0 && leaflinks(underlyingLeaf) == 0
+//@ func (*nfsStatelessLinkableLeaf).Link
+//@   props C17 C16
+//@   assume l.linkCount < MaxUint32 -- a file does not have 2^32 hard links
+//@   ensures a-granted-link-adds-one: r0 == StatusOK ==> l.linkCount == old(l.linkCount) + 1
+//@   ensures a-removed-file-is-not-revived: r0 != StatusOK ==> r0 == StatusErrStale && old(l.linkCount) == 0 && l.linkCount == 0
+//@ func (*nfsStatelessLinkableLeaf).Unlink
+//@   props C17 C16
+//@   ensures one-holder-less: l.linkCount == old(l.linkCount) - 1
+//@   ensures the-underlying-file-is-released-exactly-with-the-last-holder: leaflinks(l.LinkableLeaf) == ite(l.linkCount == 0, -1, 0)
+
 // Contents only change while no frozen reader exists, and every change
 // invalidates the cached digest.
 //@ func (*fileBackedFile).lockMutatingData
